@@ -159,4 +159,29 @@ theorem manik_roundtrip (first : Text) (rows : List SvmRow) (hok : ∀ r ∈ row
 
 example : svmRowOk ⟨[[49], [50]], [([51], [52, 46, 53]), ([55], [])]⟩ = true := by decide
 
+/-! ### (c) ARFF, dense data lines -/
+
+/-- `ArffLineReader` (dense) reads back every data section the Weka / OpenML writer produces in
+one quote style: `q` is the file's quote character (`'` or `"`), values are written bare or quoted
+with backslash escapes (the quote character and the backslash always, any further characters the
+writer likes — Weka also escapes the other quote and `%`), separated by a comma and any number of
+blanks; the reader settles on the quote character at the first quoted value and on the comma at
+the first line.  Hypothesis `arffRowOk`: no value holds the *other* quote character (see
+C12-F11: such lines go to coba's fallback parser, which is not modelled) or a line break.
+theorem arff_dense_roundtrip_full (without `arffRowOk`'s restriction to one quote character)   -- FALSE for the code: known finding C12-F11 -/
+theorem arff_dense_roundtrip_partial (q : Nat) (hq : q = SQ ∨ q = DQ) (also : Nat → Bool) (n : Nat)
+    (rows : List (Nat × List (Bool × Text))) (hok : ∀ r ∈ rows, arffRowOk q r.2 = true ∧ r.2.length = n) :
+    arffLines n ALR.init (rows.map (fun r => arffWriteRow q also r.1 r.2)) = .ok (rows.map (·.2.map (·.2))) :=
+  arffLines_written q hq also n rows hok ALR.init (Or.inl rfl)
+
+example : arffRowOk SQ [(false, [49]), (false, [115, 32, 116, 39, 92]), (true, [])] = true ∧
+    arffWriteRow SQ (fun c => c == 37) 1 [(false, [49]), (false, [115, 32, 116, 39, 92]), (true, [])]
+      = [49, 44, 32, 39, 115, 32, 116, 92, 39, 92, 92, 39, 44, 32, 39, 39] := by decide
+
+/-- the restriction is needed: Weka writes `x"y\z` as `'x\"y\\z'`; the line holds both quote
+characters, which the modelled simple path refuses (coba's fallback parser then drops the backslash) -/
+theorem arff_dense_other_quote_counterexample :
+    arffLines 1 ALR.init [arffWriteRow SQ (fun c => c == DQ) 0 [(false, [120, DQ, 121, BS, 122])]] = .error .cobaException := by
+  decide
+
 end Coba.C12
